@@ -84,7 +84,7 @@ C06_EXTRA.append(dict(XT, name="xml_load_failure", entry="h_load_failure", encod
                       stubs=XT["stubs"] + ["component enabling, this-system detection, binding hooks: no-ops (the backend is the element-tree XML backend)"],
                       bounds="the REAL hwloc_topology_load on a refused 3-object document, then reconfiguration and a second load from a valid document (concrete run): the documented 'reinitialized, may be configured and loaded again'"))
 for lo in range(0, 36, 3):
-    C06_EXTRA.append(dict(XT, name="xml_documents_%02d" % lo, entry="h_xml_documents", defines={"DOC_LO": lo, "DOC_HI": min(lo + 2, 33)}, encoded=["hwloc_look_xml", "hwloc__xml_import_object", "hwloc__xml_import_object_attr", "hwloc__xml_import_obj_info", "hwloc__xml_import_pagetype", "hwloc_discover", "hwloc_topology_clear", "hwloc_topology_setup_defaults", "hwloc_filter_levels_keep_structure"],
+    C06_EXTRA.append(dict(XT, name="xml_documents_%02d" % lo, entry="h_xml_documents", defines={"DOC_LO": lo, "DOC_HI": min(lo + 2, 34)}, encoded=["hwloc_look_xml", "hwloc__xml_import_object", "hwloc__xml_import_object_attr", "hwloc__xml_import_obj_info", "hwloc__xml_import_pagetype", "hwloc_discover", "hwloc_topology_clear", "hwloc_topology_setup_defaults", "hwloc_filter_levels_keep_structure"],
                           unwindset=dict(XT_UW, **{"h_xml_documents.0": 5}), tiers={"quick": {}, "thorough": {}}, cost=90,
                           bounds="crafted documents %d..%d of 34 (a 4-object base document with one defect or one unusual but legal feature each: PU/NUMA set mismatches, missing or misplaced sets, illegal parent/child kinds, bad cache depth, unknown types/tags/attributes, missing root nodeset, out-of-order children, future types, mergeable Group, page types, incomplete distances) through the real hwloc_look_xml inside the real discovery pipeline; on success the independent C01 checker, on failure the clean-up of hwloc_topology_load" % (lo, min(lo + 2, 33))))
 OUTSIDE = ["export -> import of whole topologies (tree, sets, attributes, distances, memory attributes, CPU kinds): the text is thousands of characters long, far beyond what bounded symbolic execution of the printers and tokenizers concludes on",
